@@ -265,3 +265,16 @@ Print Assumptions C14_every_table_row.
 Theorem C14_grammar_line_is_transition_line : forall l, wf_line l -> guard_ok l -> is_transb (render l) = true.
 Proof. exact grammar_line_is_transition_line. Qed.
 Print Assumptions C14_grammar_line_is_transition_line.
+
+(* the hypotheses of the two table theorems are met by an ordinary description: "@" / "A -> B : e" / "B -> [*]" /
+   "[*] --> A" / "  C --> [*]  " / "": four arrows, one initial line, two terminate lines, one row *)
+Example C14_table_example :
+  let lines := [[64]; [65;32;45;62;32;66;32;58;32;101]; [66;32;45;62;32;91;42;93]; [91;42;93;32;45;45;62;32;65];
+                [32;32;67;32;45;45;62;32;91;42;93;32;32]; []]%nat in
+  Forall line_ok lines /\ Forall single_star lines /\ Forall one_arrow lines /\
+  (count_transitions (join_nl lines), count_inits (join_nl lines), count_terminates (join_nl lines)) = (4, 1, 2)%nat /\
+  length (filter is_transb lines) = 1%nat /\
+  parse_stt 0 (join_nl lines) = Transition [65%nat] [66%nat] [101%nat] [] [].
+Proof.
+  cbv zeta. split; [repeat constructor|]. split; [repeat constructor|]. split; [repeat constructor|]. vm_compute. auto.
+Qed.
